@@ -12,9 +12,15 @@ function are executed with an instrumented body and compared with
               return value / exception; the caller's frames end in the same
               state (inplace);
 * METAMORPHIC all variants of one scenario show the same observable behaviour.
+* SEQUENCES   for a quarter of the scenarios, 2-3 functions are decorated
+              with ONE decorator object (or each with its own) and called in
+              an interleaved order, some repeatedly, some with other data:
+              every single call must still be what the reference says for
+              that function and that data, and no other function's body runs.
 """
 from __future__ import annotations
 
+import copy
 import inspect
 
 from .. import c16_gen as P16, c17_gen as P, snap as S
@@ -42,13 +48,24 @@ def new_run():
         "/ check_types, signature template incl. defaults, *args, **kwargs, "
         "keyword-only and positional-only parameters, generated schema(s) or "
         "plain-annotation model(s), generated frames valid / coercible / "
-        "invalid / invalid only outside head-tail, validate options, body plan "
-        "return-input / return-new / container / raise) x 6-10 equivalent "
-        "variants (designation none / int / str, binding function / method / "
-        "classmethod / staticmethod, call shape, sync / async); non-trivial = "
-        "a designated input is a frame (not None under Optional) or an output "
-        "is designated, i.e. a real validate is reached; distinct = "
-        "canonical hash of (scenario, variant)",
+        "invalid / invalid only outside head-tail, validate options incl. the "
+        "falsy-but-set values head/tail/sample/random_state = 0, schemas "
+        "whose validate returns another object than it was given even with "
+        "inplace=True (frame-level dtype coercion, add_missing_columns with "
+        "the column absent, dataframe-level parser, SeriesSchema coercion, "
+        "every polars schema), body plan return-input / return-new / "
+        "container / raise) x 6-10 equivalent variants (designation none / "
+        "int / str, check_io also written as a stack of check_input / "
+        "check_output, binding function / method / classmethod / "
+        "staticmethod, call shape, sync / async); for a quarter of the "
+        "scenarios additionally a call sequence: 2-3 functions decorated "
+        "with one decorator object (or one each), every function called at "
+        "least once in shuffled order, some again, some with other data, "
+        "each call judged against the reference for that function and data; "
+        "non-trivial = a designated input is a frame (not None under "
+        "Optional) or an output is designated, i.e. a real validate is "
+        "reached; distinct = canonical hash of (scenario, variant) resp. "
+        "(scenario, sequence)",
         ["reference wrapper pvm/c17_gen.py:reference written from the statement",
          "schema.validate itself is trusted here (C01-C03 look at it)",
          "with_pydantic=True, Series[...] annotations, pyspark/modin/dask "
@@ -62,12 +79,13 @@ def gen_scenario(rng):
     backend = "polars" if rng.random() < 0.15 else "pandas"
     options = P.gen_options(rng)
     if backend == "polars":
-        # polars: inplace is meaningless; sample is left to C20.  head/tail
-        # are exercised, but a polars subsample whose row order is
-        # run-dependent (C20's subject) would make observations
-        # irreproducible: the reference is therefore executed twice for these
-        # and the variant is only judged when it reproduces itself
-        options["inplace"] = False
+        # polars: sample is left to C20.  head/tail are exercised, but a
+        # polars subsample whose row order is run-dependent (C20's subject)
+        # would make observations irreproducible: the reference is therefore
+        # executed twice for these and the variant is only judged when it
+        # reproduces itself.  inplace=True is passed on like everywhere else
+        # (a polars validate never returns the object it was given: what the
+        # decorator hands on must be what validate returned)
         options["sample"] = options["random_state"] = None
     scn = {"deco": deco, "backend": backend, "options": options,
            "tables": {}, "specs": {}, "models": {}}
@@ -79,10 +97,7 @@ def gen_scenario(rng):
     pnames = [p[0] for p in params]
 
     def validity():
-        r = rng.random()
-        if (options["head"] is not None or options["tail"] is not None) and r < 0.4:
-            return "invalid-outside-subsample"
-        return "valid" if r < 0.6 else "coercible" if r < 0.75 else "invalid"
+        return gen_validity(rng, options)
 
     def add_frame(key, series=False, model=False, want=None):
         if model:
@@ -98,9 +113,14 @@ def gen_scenario(rng):
             spec = P16.gen_spec_of(P16.resolve(prog, 0))
         else:
             spec = P.gen_schema_spec(rng, backend,
-                                     series=series and backend == "pandas")
+                                     series=series and backend == "pandas",
+                                     parse_heavy=parse_heavy)
         scn["specs"][key] = spec
-        t, note = P.gen_table_for(rng, spec, options, want or validity())
+        want = want or validity()
+        if want == "valid" and P.parses(spec) and rng.random() < (
+                0.7 if parse_heavy else 0.4):
+            want = "coercible"         # something for the parsing to do
+        t, note = P.gen_table_for(rng, spec, options, want)
         scn["tables"][key] = t
         scn["tables_note"] = {**scn.get("tables_note", {}), key: note}
 
@@ -108,6 +128,13 @@ def gen_scenario(rng):
     plan = {"raise": rng.random() < 0.1, "shape": "bare", "source": "input"}
     values = {"x": ("scalar", 1), "y": ("scalar", 2), "k": ("scalar", None)}
     is_ct = deco == "check_types"
+    # parse-heavy scenarios: schemas whose validate() hands back another
+    # object than it was given (whatever ``inplace`` says) on data for which
+    # the two differ, more often with inplace=True
+    parse_heavy = not is_ct and rng.random() < 0.3
+    scn["parse_heavy"] = parse_heavy
+    if parse_heavy and rng.random() < 0.5:
+        options["inplace"] = True
     add_frame("df", series=rng.random() < 0.12 and not is_ct, model=is_ct)
     values["df"] = ("frame", "df", "fresh")
     scn["designated"] = ["df"] if deco != "check_output" else []
@@ -184,11 +211,15 @@ def gen_scenario(rng):
                     out["first_spec"] = "df"
             out["callable_getter"] = (deco == "check_output" and shape != "bare"
                                       and rng.random() < 0.25)
+            if parse_heavy:
+                out["callable_getter"] = False
             if out["callable_getter"]:
                 # a callable getter cannot re-assign: pandera refuses coercing
                 # schemas for it at decoration time
                 sp = scn["specs"]["df" if out["same_as_df"] else "out"]
                 sp["coerce"] = False
+                sp["c17_features"] = [f for f in sp.get("c17_features", [])
+                                      if "coerce" not in f]
                 for c in ([sp["field"]] if sp["kind"] == "series" else sp["columns"]):
                     c["coerce"] = False
             scn["out"] = out
@@ -222,6 +253,13 @@ def gen_scenario(rng):
         scn["return_annotated"] = scn["out"] is not None
     scn["plan"], scn["values"] = plan, values
     return scn
+
+
+def gen_validity(rng, options):
+    r = rng.random()
+    if (options["head"] is not None or options["tail"] is not None) and r < 0.4:
+        return "invalid-outside-subsample"
+    return "valid" if r < 0.6 else "coercible" if r < 0.75 else "invalid"
 
 
 def nontrivial(scn):
@@ -265,6 +303,9 @@ def gen_variants(rng, scn):
                 if scn["out"]["shape"] != "bare" else rng.choice(["schema", "tuple", "list"])
             if scn["out"]["shape"] == "tuple2":
                 v["out_form"] = "list"
+        if scn["deco"] == "check_io" and rng.random() < 0.25:
+            # the same checks written as a stack of check_input / check_output
+            v["io_form"] = "stacked"
         if scn["deco"] == "check_types":
             v["deco_form"] = rng.choice(["bare", "called"])
         designated = [d for d in scn["designated"] if d in kinds and
@@ -378,22 +419,33 @@ def annotations_for(scn, world):
     return ann
 
 
-def decorate(scn, var, world, fn):
+def make_decorator(scn, var, world):
+    """The decorator *object* (a callable: function -> decorated function);
+    it may be applied to any number of functions."""
     import pandera as pa
     deco, o = scn["deco"], scn["options"]
     kw = _opts_kwargs(o)
     if deco == "check_input":
         getter = {"none": None, "str": "df", "int": var.get("getter_index")}[var["designation"]]
         if getter is None and var["designation"] == "none":
-            return pa.check_input(world.schema("df"), **kw)(fn)
-        return pa.check_input(world.schema("df"), getter, **kw)(fn)
+            return pa.check_input(world.schema("df"), **kw)
+        return pa.check_input(world.schema("df"), getter, **kw)
     if deco == "check_output":
-        return pa.check_output(*_out_args(scn, var, world)[0], **kw)(fn)
+        return pa.check_output(*_out_args(scn, var, world)[0], **kw)
     if deco == "check_io":
         inputs = {d: world.schema(d) for d in scn["designated"]}
         outs = _out_args(scn, var, world) if scn["out"] else []
+        if var.get("io_form") == "stacked":
+            decos = [pa.check_input(s, d, **kw) for d, s in inputs.items()] + \
+                    [pa.check_output(s, g, **kw) for s, g in outs]
+
+            def stacked(fn):
+                for d in decos:
+                    fn = d(fn)
+                return fn
+            return stacked
         if not outs:
-            return pa.check_io(**kw, **inputs)(fn)
+            return pa.check_io(**kw, **inputs)
         form = var.get("out_form", "tuple")
         if form == "schema":
             out = outs[0][0]
@@ -401,12 +453,16 @@ def decorate(scn, var, world, fn):
             out = (outs[0][1], outs[0][0])
         else:
             out = [(g, s) for s, g in outs]
-        return pa.check_io(out=out, **kw, **inputs)(fn)
+        return pa.check_io(out=out, **kw, **inputs)
     if deco == "check_types":
         if var.get("deco_form") == "bare" and not kw:
-            return pa.check_types(fn)
-        return pa.check_types(**kw)(fn)
+            return pa.check_types           # @check_types without parentheses
+        return pa.check_types(**kw)
     raise AssertionError(deco)
+
+
+def decorate(scn, var, world, fn):
+    return make_decorator(scn, var, world)(fn)
 
 
 def _out_specs(scn, var):
@@ -558,6 +614,188 @@ def _ct_in_specs(scn, world, obs):
     if scn.get("kw_annotated"):
         specs.append(("kw", model_validator(["df"], False)))
     return specs
+
+
+# ---------------------------------------------------------------- sequences
+P_SEQUENCE = 0.25
+
+
+def gen_sequence(rng, scn, variants):
+    """2-3 functions (binding / call shape / sync-async / raising body vary)
+    decorated with ONE decorator object - a decorator is an ordinary value
+    and may be applied to any number of functions - or each with its own,
+    then called in an interleaved order: every function at least once, some
+    again, some calls with other data (scn tables / the alternative tables).
+    """
+    params = P.TEMPLATES[scn["template"]]
+    positional = [p[0] for p in params if p[1] in ("posonly", "pos")]
+    base = variants[0]
+    fns = []
+    for j in range(rng.choice([2, 2, 3])):
+        v = copy.deepcopy(base if j == 0 else rng.choice(variants))
+        # one decorator object: the designation is the decorator's
+        for k in ("designation", "getter", "out_form", "io_form"):
+            if k in base:
+                v[k] = base[k]
+            else:
+                v.pop(k, None)
+        if v["designation"] == "int":
+            v["getter_index"] = positional.index("df")
+        else:
+            v.pop("getter_index", None)
+        if scn["deco"] == "check_types":
+            v["deco_form"] = "called"
+        v["raise"] = scn["plan"]["raise"] if j == 0 else rng.random() < 0.2
+        fns.append(v)
+    order = list(range(len(fns)))
+    rng.shuffle(order)
+    order += [rng.randrange(len(fns)) for _ in range(rng.choice([1, 2]))]
+    steps = [[i, rng.random() < 0.4] for i in order]
+    alt = {}
+    for key in scn["tables"]:
+        want = gen_validity(rng, scn["options"])
+        if key == "df" and scn["values"]["df"][0] == "frame" \
+                and scn["values"]["df"][2] in ("carry_equal", "carry_stale") \
+                and scn.get("df_annotation") != "union":
+            want = "valid"                 # only a valid frame carries its schema
+        alt[key], _ = P.gen_table_for(rng, scn["specs"][key], scn["options"], want)
+    return {"shared": rng.random() < 0.7, "fns": fns, "steps": steps,
+            "tables_alt": alt}
+
+
+def step_scenario(scn, seq, var, alt):
+    s = dict(scn)
+    if alt:
+        s["tables"] = seq["tables_alt"]
+    s["plan"] = dict(scn["plan"], **{"raise": var["raise"]})
+    return s
+
+
+def execute_sequence(scn, seq):
+    """The real decorated functions, called step by step -> [observation]"""
+    world = World(scn)
+    params = P.TEMPLATES[scn["template"]]
+    ann = annotations_for(scn, world) if scn["deco"] == "check_types" else None
+    shared = None
+    fns = []
+    for j, var in enumerate(seq["fns"]):
+        first = {"method": "self", "classmethod": "cls"}.get(var["binding"])
+        rec = {"calls": [], "first": []}
+        body = P.make_body(rec, dict(scn["plan"], **{"raise": var["raise"]}),
+                           world.out_factory)
+        fn = P.make_fn(params, first, var["async"], body, ann, name="fn%d" % j)
+        K = type("K%d" % j, (), {})
+        inst = K()
+        entry = {"rec": rec, "expected_first":
+                 {"method": inst, "classmethod": K}.get(var["binding"])}
+        try:
+            if seq["shared"]:
+                shared = shared or make_decorator(scn, seq["fns"][0], world)
+                decorated = shared(fn)
+            else:
+                decorated = decorate(scn, var, world, fn)
+        except Exception as e:
+            entry["decoration_error"] = repr(e)[:300]
+            fns.append(entry)
+            continue
+        if var["binding"] == "function":
+            call = decorated
+        elif var["binding"] == "method":
+            K.m = decorated
+            call = inst.m
+        elif var["binding"] == "classmethod":
+            K.m = classmethod(decorated)
+            call = inst.m if var["via_instance"] else K.m
+        else:
+            K.m = staticmethod(decorated)
+            call = inst.m if var["via_instance"] else K.m
+        entry["call"] = call
+        fns.append(entry)
+    observations = []
+    for i, alt in seq["steps"]:
+        var, entry = seq["fns"][i], fns[i]
+        world.scn = step_scenario(scn, seq, var, alt)
+        world.frames, world.carry_failed = [], False
+        before = [len(e["rec"]["calls"]) for e in fns]
+        obs = {}
+        if "decoration_error" in entry:
+            obs["decoration_error"] = entry["decoration_error"]
+
+        def mat(vs):
+            if isinstance(vs, list):
+                return [world.materialise(x, False) for x in vs]
+            if isinstance(vs, dict):
+                return {k: world.materialise(x, False) for k, x in vs.items()}
+            return world.materialise(vs, False)
+        args = [mat(a) for a in var["args"]]
+        kwargs = {k: mat(a) for k, a in var["kwargs"].items()}
+        if "call" in entry:
+            try:
+                res = entry["call"](*args, **kwargs)
+                if inspect.isawaitable(res):
+                    res = P.loop().run_until_complete(res)
+                obs["outcome"] = ("return", P.desc(res))
+            except Exception as e:   # whatever is raised is the observation
+                obs["outcome"] = ("raise", P.exc_norm(e))
+                if not isinstance(e, P.BodyError):
+                    obs["exc_repr"] = repr(e)[:200]
+        rec = entry["rec"]
+        obs["rec"] = {"calls": rec["calls"][before[i]:],
+                      "first": rec["first"][before[i]:]}
+        obs["first_ok"] = all(x is entry["expected_first"]
+                              for x in obs["rec"]["first"])
+        obs["other_bodies_ran"] = [j for j, e in enumerate(fns)
+                                   if j != i and len(e["rec"]["calls"]) != before[j]]
+        obs["after"] = sorted(((k, S.snap(o)) for k, o in world.frames),
+                              key=lambda kv: kv[0])
+        obs["carry_failed"] = world.carry_failed
+        observations.append(obs)
+    world.cleanup()
+    return observations
+
+
+def one_sequence(run, scn, seq):
+    deco = scn["deco"]
+    run.case(canon_hash([scn, seq]), nontrivial(scn))
+    run.count("seq:sequences")
+    run.count("seq:" + ("one-decorator-object-for-all-functions"
+                        if seq["shared"] else "own-decorator-per-function"))
+    try:
+        observations = execute_sequence(scn, seq)
+    except Exception as e:
+        run.count("harness_error:" + type(e).__name__)
+        run.violation("harness-error", {"scenario": scn, "sequence": seq,
+                                        "exc": repr(e)[:300]}, None)
+        return
+    called = []
+    for n, ((i, alt), act) in enumerate(zip(seq["steps"], observations)):
+        var = seq["fns"][i]
+        sscn = step_scenario(scn, seq, var, alt)
+        run.count("seq:steps")
+        if alt:
+            run.count("seq:step:other-data-than-the-call-before"
+                      if n and seq["steps"][n - 1][1] != alt else "seq:step:alternative-data")
+        if i in called:
+            run.count("seq:step:function-called-again")
+        if called and called[0] != i and seq["shared"]:
+            # the class in which per-decorator (instead of per-function)
+            # state shows: not the first function called through this object
+            run.count("class:one-decorator-object:call-of-another-function-"
+                      "than-the-first-called:" + deco)
+        called.append(i)
+        try:
+            ref = execute(sscn, var, True)
+        except Exception as e:
+            run.count("harness_error:" + type(e).__name__)
+            run.violation("harness-error", {"scenario": scn, "sequence": seq,
+                                            "step": n, "exc": repr(e)[:300]}, None)
+            continue
+        ok = judge(run, sscn, var, ref, act, features(sscn, var),
+                   extra={"sequence": seq, "step": n})
+        if ok is True:
+            run.count("seq:step_agrees_with_reference")
+        elif ok is False:
+            break        # later steps of a derailed sequence say nothing new
 
 
 # ------------------------------------------------------------------ judging
@@ -747,8 +985,11 @@ def compare(scn, var, act, ref, run):
         out and out[0] == "raise" and out[1][0] in ("SchemaError", "SchemaErrors")
         and ("raise", "<any-schema-error>") in ref["outcomes"])
     if not ok and not ambiguous:
-        if var["async"] and ref.get("raw") == out and scn["deco"] in (
-                "check_output", "check_io"):
+        if var["async"] and out in (ref.get("raw"), ref.get("raw_after")) \
+                and scn["deco"] in ("check_output", "check_io"):
+            # the coroutine's own result object instead of what validate
+            # returned (as the body returned it, or as in-place validation
+            # left it): DESIGN section 7 leaves this open
             run.count("undecided:async-check_output-returns-unparsed-object")
         else:
             diffs.append(("outcome-differs", None))
@@ -773,14 +1014,114 @@ def obs_key(act):
                  act.get("outcome"), act["after"]))
 
 
-def one_case(run, rng, scn=None, variants=None):
+def judge(run, scn, var, ref, act, f, extra=None):
+    """One executed call against its reference -> True agrees / False
+    violation reported / None not judged (counted under undecided:...)."""
+    if scn["backend"] == "polars" and (
+            scn["options"]["head"] is not None or scn["options"]["tail"] is not None):
+        ref2 = execute(scn, var, True)
+        if (ref2.get("outcomes"), ref2["rec"]["calls"]) != (
+                ref.get("outcomes"), ref["rec"]["calls"]):
+            run.count("undecided:polars-subsample-not-reproducible(C20)")
+            return None
+        run.count("polars_subsample_reference_reproducible")
+    if "reference_error" in ref:
+        run.count("reference_error")
+        run.violation("harness-error", {"scenario": scn, "variant": var,
+                                        "exc": ref["reference_error"],
+                                        **(extra or {})}, None)
+        return False
+    if act.get("carry_failed") or ref.get("carry_failed"):
+        run.count("carry_prevalidation_failed")
+    stale = scn["deco"] == "check_types" and scn["values"]["df"][0] == "frame" \
+        and scn["values"]["df"][2] == "carry_stale" and not ref.get("carry_failed")
+    run.count("ref:body_called" if ref["called"] else "ref:body_not_called")
+    if ref["outcomes"] and ref["outcomes"][0][0] == "raise":
+        what = ref["outcomes"][0][1]
+        run.count("ref:raises:" + str(what if isinstance(what, str) else what[0]))
+    else:
+        run.count("ref:returns")
+    if stale:
+        # equal schema on the accessor, frame invalidated afterwards: the
+        # statement does not settle whether the shortcut may trust it
+        run.count("undecided:accessor-carries-equal-schema-but-frame-changed")
+        return None
+    if scn["deco"] == "check_types" and scn["values"]["df"][0] == "frame" \
+            and not ref.get("carry_failed") and not act.get("carry_failed"):
+        st = scn["values"]["df"][2]
+        if st == "carry_equal":
+            run.count("accessor:equal-schema-valid-frame:judged")
+        elif st == "carry_other":
+            run.count("accessor:different-schema:judged")
+    # validate() handed back another object than it was given: what reaches
+    # the body / the caller must be that object
+    if ref.get("in_new_object"):
+        run.count("class:input:validate-returns-new-object")
+        if scn["options"]["inplace"]:
+            run.count("class:input:inplace-and-validate-returns-new-object")
+    if any(g is not None for g in ref.get("out_new_object") or []) \
+            and var.get("getter") != "callable":
+        run.count("class:output-int-or-str-getter:validate-returns-new-object")
+        if scn["options"]["inplace"]:
+            run.count("class:output-int-or-str-getter:inplace-and-validate-"
+                      "returns-new-object:" + scn["backend"])
+            if ref.get("out_parsed_differs") and not var["async"]:
+                run.count("class:output-int-or-str-getter:inplace-and-parsed-"
+                          "object-differs-from-the-one-returned-by-the-body")
+    diffs = compare(scn, var, act, ref, run)
+    if act.get("other_bodies_ran"):
+        diffs.insert(0, ("another-decorated-functions-body-ran",
+                         act["other_bodies_ran"]))
+    if not diffs:
+        run.count("variant_agrees_with_reference")
+        return True
+    mech = classify(scn, var, act, ref, diffs[0][0])
+    if extra and "sequence" in extra:
+        # a known single-call mechanism is only named when the same call
+        # deviates on its own as well; what only shows inside the sequence
+        # (state kept between calls / between functions) stays unclassified
+        try:
+            alone = execute(scn, var, False)
+            if not compare(scn, var, alone, ref, Run(PID, "", "")):
+                mech = None
+                extra = dict(extra, only_in_sequence=True)
+        except Exception:
+            mech = None
+    for kind, detail in diffs[:1]:
+        run.violation(kind, {
+            "scenario": scn, "variant": var, "features": f,
+            "detail": detail, "all_diffs": [d[0] for d in diffs],
+            "actual_outcome": _brief(act.get("outcome")),
+            "actual_exc": act.get("exc_repr"),
+            "reference_outcomes": _brief(ref["outcomes"]),
+            "actual_calls": _brief(act["rec"]["calls"]),
+            "reference_calls": _brief(ref["rec"]["calls"]),
+            **(extra or {})}, mech)
+    return False
+
+
+def one_case(run, rng, scn=None, variants=None, sequence=None):
     scn = scn or gen_scenario(rng)
     variants = variants or gen_variants(rng, scn)
+    if sequence is None and len(variants) > 1 and rng.random() < P_SEQUENCE:
+        sequence = gen_sequence(rng, scn, variants)
+    if sequence is not None and len(variants) <= 1:
+        return one_sequence(run, scn, sequence)          # replay of a sequence
     run.count("scenario:" + scn["deco"])
     run.count("backend:" + scn["backend"])
     run.count("template:" + scn["template"])
-    for k in _opts_kwargs(scn["options"]):
+    if scn.get("parse_heavy"):
+        run.count("scenario:parse-heavy")
+    for k, v in _opts_kwargs(scn["options"]).items():
         run.count("option:" + k)
+        if v == 0 and v is not False:
+            run.count("option:falsy-but-set:%s=0" % k)
+    for key, sp in scn["specs"].items():
+        if key in ("df", "other", "out"):
+            for feat in sp.get("c17_features", []):
+                run.count("schema_feature:" + feat)
+            if sp["kind"] == "series" and sp["field"].get("coerce"):
+                run.count("schema_feature:series-coerce")
     for k, note in scn.get("tables_note", {}).items():
         run.count("table:%s" % note)
     if scn["deco"] == "check_types":
@@ -798,6 +1139,8 @@ def one_case(run, rng, scn=None, variants=None):
         run.count("variant:designation:" + var["designation"])
         run.count("variant:binding:" + var["binding"])
         run.count("variant:" + ("async" if var["async"] else "sync"))
+        if var.get("io_form") == "stacked":
+            run.count("variant:check_io-written-as-stacked-check_input-check_output")
         run.count("variant:df_passed_by:" + ("keyword" if f["df_by_keyword"] else "position"))
         for cls in coverage_classes(scn, f):
             run.count("class:" + cls)
@@ -809,56 +1152,8 @@ def one_case(run, rng, scn=None, variants=None):
             run.violation("harness-error", {"scenario": scn, "variant": var,
                                             "exc": repr(e)[:300]}, None)
             continue
-        if scn["backend"] == "polars" and (
-                scn["options"]["head"] is not None or scn["options"]["tail"] is not None):
-            ref2 = execute(scn, var, True)
-            if (ref2.get("outcomes"), ref2["rec"]["calls"]) != (
-                    ref.get("outcomes"), ref["rec"]["calls"]):
-                run.count("undecided:polars-subsample-not-reproducible(C20)")
-                continue
-            run.count("polars_subsample_reference_reproducible")
-        if "reference_error" in ref:
-            run.count("reference_error")
-            run.violation("harness-error", {"scenario": scn, "variant": var,
-                                            "exc": ref["reference_error"]}, None)
-            continue
-        if act.get("carry_failed") or ref.get("carry_failed"):
-            run.count("carry_prevalidation_failed")
-        stale = scn["deco"] == "check_types" and scn["values"]["df"][0] == "frame" \
-            and scn["values"]["df"][2] == "carry_stale" and not ref.get("carry_failed")
-        run.count("ref:body_called" if ref["called"] else "ref:body_not_called")
-        if ref["outcomes"] and ref["outcomes"][0][0] == "raise":
-            what = ref["outcomes"][0][1]
-            run.count("ref:raises:" + str(what if isinstance(what, str) else what[0]))
-        else:
-            run.count("ref:returns")
-        if stale:
-            # equal schema on the accessor, frame invalidated afterwards: the
-            # statement does not settle whether the shortcut may trust it
-            run.count("undecided:accessor-carries-equal-schema-but-frame-changed")
-            continue
-        if scn["deco"] == "check_types" and scn["values"]["df"][0] == "frame" \
-                and not ref.get("carry_failed") and not act.get("carry_failed"):
-            st = scn["values"]["df"][2]
-            if st == "carry_equal":
-                run.count("accessor:equal-schema-valid-frame:judged")
-            elif st == "carry_other":
-                run.count("accessor:different-schema:judged")
-        diffs = compare(scn, var, act, ref, run)
-        if not diffs:
-            run.count("variant_agrees_with_reference")
+        if judge(run, scn, var, ref, act, f) is True:
             groups.setdefault(obs_key(act), []).append(vi)
-            continue
-        mech = classify(scn, var, act, ref, diffs[0][0])
-        for kind, detail in diffs[:1]:
-            run.violation(kind, {
-                "scenario": scn, "variant": var, "features": f,
-                "detail": detail, "all_diffs": [d[0] for d in diffs],
-                "actual_outcome": _brief(act.get("outcome")),
-                "actual_exc": act.get("exc_repr"),
-                "reference_outcomes": _brief(ref["outcomes"]),
-                "actual_calls": _brief(act["rec"]["calls"]),
-                "reference_calls": _brief(ref["rec"]["calls"])}, mech)
     # METAMORPHIC: variants that each match their reference must also match
     # each other (same scenario => same observable behaviour)
     if len(variants) > 1:
@@ -880,6 +1175,8 @@ def one_case(run, rng, scn=None, variants=None):
                                           for g in groups.values()]}, None)
         elif groups:
             run.count("metamorphic_all_equal")
+    if sequence is not None:
+        one_sequence(run, scn, sequence)
 
 
 def run(run, ctx):
@@ -919,6 +1216,30 @@ FLOORS_QUICK = {
     "class:check_types:union-lazy": 41,
     "class:check_types:union-pandas": 210,
     "class:check_types:union-polars": 27,
+    # second round (seeded mutations): falsy-but-set option values, schemas
+    # whose validate returns another object than it was given, call sequences
+    "option:falsy-but-set:head=0": 15, "option:falsy-but-set:tail=0": 5,
+    "option:falsy-but-set:sample=0": 4, "option:falsy-but-set:random_state=0": 13,
+    "scenario:parse-heavy": 97,
+    "schema_feature:add-missing-columns": 73, "schema_feature:dataframe-parser": 45,
+    "schema_feature:frame-coerce": 42, "schema_feature:frame-dtype-coerce": 12,
+    "schema_feature:series-coerce": 5,
+    "class:input:inplace-and-validate-returns-new-object": 225,
+    "class:output-int-or-str-getter:validate-returns-new-object": 260,
+    "class:output-int-or-str-getter:inplace-and-validate-returns-new-object:pandas": 33,
+    "class:output-int-or-str-getter:inplace-and-validate-returns-new-object:polars": 11,
+    "class:output-int-or-str-getter:inplace-and-parsed-object-differs-from-"
+    "the-one-returned-by-the-body": 16,
+    "variant:check_io-written-as-stacked-check_input-check_output": 150,
+    "seq:sequences": 116, "seq:steps": 440, "seq:step_agrees_with_reference": 430,
+    "seq:one-decorator-object-for-all-functions": 83,
+    "seq:own-decorator-per-function": 33,
+    "seq:step:function-called-again": 170, "seq:step:alternative-data": 90,
+    "seq:step:other-data-than-the-call-before": 80,
+    "class:one-decorator-object:call-of-another-function-than-the-first-called:check_input": 52,
+    "class:one-decorator-object:call-of-another-function-than-the-first-called:check_output": 26,
+    "class:one-decorator-object:call-of-another-function-than-the-first-called:check_io": 26,
+    "class:one-decorator-object:call-of-another-function-than-the-first-called:check_types": 57,
 }
 
 
@@ -934,9 +1255,12 @@ def replay(path):
     with open(path) as f:
         w = json.load(f)["witness"]
     r = new_run()
-    scn, var = w["scenario"], w.get("variant")
-    one_case(r, random.Random(0), scn=_unjson(scn),
-             variants=[_unjson(var)] if var else None)
+    scn, var, seq = w["scenario"], w.get("variant"), w.get("sequence")
+    if seq:
+        one_sequence(r, _unjson(scn), _unjson(seq))
+    else:
+        one_case(r, random.Random(0), scn=_unjson(scn),
+                 variants=[_unjson(var)] if var else None)
     for v in r.violations:
         print(v["kind"], v["mechanism"])
     return 1 if r.violations else 0
